@@ -529,8 +529,11 @@ def main(argv=None):
         "wall_s": round(ctx.elapsed(), 2),
         "violations": violations,
     }
-    os.makedirs(os.path.join(VERIF, "evidence"), exist_ok=True)
-    with open(os.path.join(VERIF, "evidence", prop + ".json"), "w") as f:
+    # evidence/Cxx.json describes /repo itself; a run against another tree (PYYETI_REPO: seeded
+    # changes, reverted fixes) writes to evidence/alt/ (not tracked) so that it never replaces it
+    evdir = os.path.join(VERIF, "evidence") if os.path.realpath(REPO) == "/repo" else os.path.join(VERIF, "evidence", "alt")
+    os.makedirs(evdir, exist_ok=True)
+    with open(os.path.join(evdir, prop + ".json"), "w") as f:
         json.dump(ev, f, indent=1)
     for l in lines:
         print(l)
